@@ -232,7 +232,10 @@ def gen_ical(rng, uid=None):
     summary = rng.choice(SUMMARIES) + rng.choice(["", " 2", " 3"])
     extra = rng.choice(["", "", "DESCRIPTION:line one\\nline two", "CATEGORIES:A,B", "DESCRIPTION:room\tB12 (a tab)",
                         "BEGIN:VALARM\nACTION:DISPLAY\nTRIGGER:-PT15M\nDESCRIPTION:r\nEND:VALARM"
-                        if comp == "VEVENT" else "", "LOCATION;LANGUAGE=en:Room \"1\""])
+                        if comp == "VEVENT" else "", "LOCATION;LANGUAGE=en:Room \"1\"",
+                        # repeated properties, not in lexical order: they are stored in the order given
+                        "ATTENDEE:mailto:zed@example.com\nATTENDEE:mailto:amy@example.com",
+                        "COMMENT:zz top\nCOMMENT:aa bottom\nCOMMENT:mm"])
     eol = rng.choice(["\r\n", "\r\n", "\n"])
     uidline = rng.random() > 0.08
     return vevent(uid, summary=summary, extra=extra, comp=comp, eol=eol, uidline=uidline)
